@@ -167,11 +167,23 @@ func runCheck(prop, tier string) int {
 		return 2
 	}
 	// keep only obligations owned by this property
+	type findingOb struct {
+		vc *FnVC
+		ob *Obligation
+		f  *Finding
+	}
+	var findingObs []findingOb
 	nOb := 0
 	for _, vc := range vcs {
 		var keep []*Obligation
 		for _, ob := range vc.Obs {
 			if owns(prop, vc.Contract, ob) {
+				if f := fByOb[ob.Name]; f != nil {
+					// known finding: not solved as an ordinary obligation (it is expected to fail)
+					findingObs = append(findingObs, findingOb{vc, ob, f})
+					nOb++
+					continue
+				}
 				keep = append(keep, ob)
 			}
 		}
@@ -196,6 +208,18 @@ func runCheck(prop, tier string) int {
 	}
 	tSolve := time.Now()
 	results := g.solveAll(vcs, timeout, thorough)
+	// Undecided answers (timeout/unknown) are retried one at a time with every solver and a longer
+	// limit before they count: under machine load a normally sub-second query can exceed the limit.
+	for i, r := range results {
+		if r.Status == "timeout" || r.Status == "unknown" || r.Status == "error" {
+			if r.Ob.Cover {
+				continue
+			}
+			r2 := g.solveOne(r.VC, r.Ob, timeout*4, true)
+			r2.Ms += r.Ms
+			results[i] = r2
+		}
+	}
 	solveS := time.Since(tSolve).Seconds()
 
 	var samples []obSample
@@ -241,7 +265,7 @@ func runCheck(prop, tier string) int {
 		if f != nil {
 			// excused finding: must hold outside the excuse, is expected to fail inside it
 			rOut := g.solveExcused(r.VC, ob, timeout, thorough, false)
-			rIn := g.solveExcused(r.VC, ob, timeout, thorough, true)
+			rIn := g.solveExcused(r.VC, ob, 8, false, true) // expected to fail: a short limit suffices
 			solverMs += rOut.Ms + rIn.Ms
 			if !rIn.OK {
 				known = append(known, fmt.Sprintf("KNOWN-FINDING: property=%s %s (obligation %s, excuse: %s)", prop, f.What, ob.Name, f.Excuse))
@@ -262,6 +286,35 @@ func runCheck(prop, tier string) int {
 			detail += fmt.Sprintf("; failing case %d of the split", r.Case)
 		}
 		vios = append(vios, vio{name: ob.Name, detail: detail, output: r.Output, res: r})
+	}
+	for _, fo := range findingObs {
+		ob, f := fo.ob, fo.f
+		if f.Excuse == "" || f.Excuse == "true" {
+			r := g.solveOne(fo.vc, ob, 8, false)
+			solverMs += r.Ms
+			if !r.OK {
+				known = append(known, fmt.Sprintf("KNOWN-FINDING: property=%s %s (obligation %s)", prop, f.What, ob.Name))
+			}
+			samples = append(samples, obSample{ob.Name, r.Status, r.Solver, r.Ms, ob.Pos, "known finding (no excuse): " + f.What})
+			continue
+		}
+		obligations++
+		rOut := g.solveExcused(fo.vc, ob, timeout, thorough, false)
+		if !rOut.OK && rOut.Status != "sat" {
+			rOut = g.solveExcused(fo.vc, ob, timeout*4, true, false)
+		}
+		rIn := g.solveExcused(fo.vc, ob, 8, false, true) // expected to fail: a short limit suffices
+		solverMs += rOut.Ms + rIn.Ms
+		if !rIn.OK {
+			known = append(known, fmt.Sprintf("KNOWN-FINDING: property=%s %s (obligation %s, excuse: %s)", prop, f.What, ob.Name, f.Excuse))
+		}
+		samples = append(samples, obSample{ob.Name, rOut.Status, rOut.Solver, rOut.Ms, ob.Pos, ob.Desc + " [outside the excuse of a known finding: " + f.Excuse + "]"})
+		if rOut.OK {
+			discharged++
+			continue
+		}
+		rOut.Ob = ob
+		vios = append(vios, vio{name: ob.Name, detail: fmt.Sprintf("obligation not discharged outside the excuse of the known finding (%s): solver answer %s", f.Excuse, rOut.Status), output: rOut.Output, res: rOut})
 	}
 	for _, k := range known {
 		fmt.Println(k)
@@ -294,9 +347,9 @@ func runCheck(prop, tier string) int {
 			}
 			fmt.Fprintf(os.Stderr, "  failed: %s — %s\n", v.name, v.detail)
 		}
-		if exit == 0 {
-			exit = 1
-		}
+		// a failed obligation is assumed by the obligations after it, which can make canaries and
+		// covers of the same function vacuous: the violation takes precedence over those guards
+		exit = 1
 	}
 	// evidence
 	var tb []string
